@@ -4,8 +4,8 @@ struct S3 : public inner_op
 {
   struct state { stack::uptr m_cur; unsigned m_k; };
   layout::loc m_ll;
-  unsigned m_cnt[VP_D];
-  uint64_t m_out[VP_D][VP_M];
+  unsigned m_cnt[6];
+  uint64_t m_out[6][VP_M];
   S3 (layout &l, std::shared_ptr <op> upstream) : inner_op {upstream}, m_ll {l.reserve <state> ()} {}
   std::string name () const override { return "S"; }
   void state_con (scon &sc) const override { sc.con <state> (m_ll); sc.get <state> (m_ll).m_k = 0; inner_op::state_con (sc); }
@@ -13,7 +13,46 @@ struct S3 : public inner_op
   stack::uptr next (scon &sc) const override
   {
     state &st = sc.get <state> (m_ll);
-    for (unsigned guard = 0; guard < LOOPN; ++guard)
+#if VAR == 1
+    // no state pointer: pull and forward
+    return m_upstream->next (sc);
+#elif VAR == 2
+    st.m_cur = m_upstream->next (sc);
+    if (st.m_cur == nullptr) return nullptr;
+    return std::make_unique <stack> (*st.m_cur);
+#elif VAR == 3
+    st.m_cur = m_upstream->next (sc);
+    if (st.m_cur == nullptr) return nullptr;
+    uint64_t id = tok_at (*st.m_cur, 1);
+    vp_assert (id < 2, "id");
+    return std::make_unique <stack> (*st.m_cur);
+#elif VAR == 4
+    st.m_cur = m_upstream->next (sc);
+    if (st.m_cur == nullptr) return nullptr;
+    uint64_t id = tok_at (*st.m_cur, 1);
+    if (st.m_k < m_cnt[id]) { st.m_k++; return std::make_unique <stack> (*st.m_cur); }
+    return nullptr;
+#elif VAR == 5
+    if (st.m_cur == nullptr)
+      {
+        st.m_cur = m_upstream->next (sc);
+        if (st.m_cur == nullptr)
+          return nullptr;
+        st.m_k = 0;
+      }
+    uint64_t id = tok_at (*st.m_cur, 1);
+    if (st.m_k < m_cnt[id])
+      {
+        auto r = std::make_unique <stack> (*st.m_cur);
+        r->pop ();
+        r->push (std::make_unique <value_tok> (m_out[id][st.m_k], st.m_k));
+        st.m_k++;
+        return r;
+      }
+    st.m_cur = nullptr;
+    return nullptr;
+#elif VAR == 6
+    for (unsigned guard = 0; guard < 3; ++guard)
       {
         if (st.m_cur == nullptr)
           {
@@ -22,20 +61,17 @@ struct S3 : public inner_op
               return nullptr;
             st.m_k = 0;
           }
-        uint64_t t = tok_at (*st.m_cur, 0);
-        if (st.m_k < m_cnt[t])
+        uint64_t id = tok_at (*st.m_cur, 1);
+        if (st.m_k < m_cnt[id])
           {
             auto r = std::make_unique <stack> (*st.m_cur);
-#if POP
-            r->pop ();
-            r->push (std::make_unique <value_tok> (m_out[t][st.m_k], st.m_k));
-#endif
             st.m_k++;
             return r;
           }
         st.m_cur = nullptr;
       }
     return nullptr;
+#endif
   }
 };
 VP_HARNESS (probe_or)
@@ -45,21 +81,15 @@ VP_HARNESS (probe_or)
   u->m_n = 2; u->m_two = true;
   u->m_tok[0] = nd_tok (); u->m_tok[1] = nd_tok (); u->m_below[0] = 0; u->m_below[1] = 1;
   auto s = std::make_shared <S3> (l, u);
-  for (unsigned t = 0; t < VP_D; ++t) { unsigned c = vp_nondet_u8 (); vp_assume (c <= 2); s->m_cnt[t] = c; s->m_out[t][0] = nd_tok (); s->m_out[t][1] = nd_tok (); }
+  s->m_cnt[0] = 1; s->m_cnt[1] = 2;
   std::shared_ptr <op> x = s;
   scon sc {l};
   x->state_con (sc);
-  unsigned end = vp_nondet_u8 ();
-  vp_assume (end <= 2);
-  u->feed (sc, end);
-  unsigned n = 0;
-  for (unsigned p = 0; p < NP; ++p)
-    {
-      auto r = x->next (sc);
-      if (r == nullptr)
-        break;
-      vp_assert (r->size () == 2, "size");
-      ++n;
-    }
+  u->feed (sc, 2);
+  s->m_out[0][0] = nd_tok (); s->m_out[0][1] = nd_tok (); s->m_out[1][0] = nd_tok (); s->m_out[1][1] = nd_tok ();
+  auto r = x->next (sc);
+  vp_assert (r != nullptr, "first");
+  auto r2 = x->next (sc);
+  vp_assert (r2 != nullptr, "second");
   x->state_des (sc);
 }
